@@ -915,7 +915,7 @@ def execute(plan):
     }
     if n == 1:
         # one qubit: the outcome as a Python bool (True == 1 is an integer outcome)
-        enc_lists["bool"] = [bool(v) for v in vals]
+        enc_lists["bool"] = [(np.bool_(v) if hw.chance(0.5) else bool(v)) for v in vals]  # (numpy's bool too)
     hist = {}
     # (without definitions an idle gate is a gate like any other and counts as using its
     # qubits, so a program that is valid because a parallel branch only idles is not)
